@@ -433,6 +433,15 @@ func c19MrtBuild(s *verifgen.Src, st *verifkit.Stats) c19MrtBuilt {
 			}
 		}
 		verifgen.NormalisePathIDs(msg, opt)
+		if !as4 {
+			// the sub-types without AS4 hold the message of a session without the 4-octet-AS capability
+			// (RFC 6396 4.4.2): its AS_PATH and AGGREGATOR carry 2-octet AS numbers
+			verifgen.FitTo2ByteAS(msg)
+			if opt == nil {
+				opt = &bgp.MarshallingOption{}
+			}
+			opt.Use2ByteAS = true
+		}
 		m, _ := ctor(c19MrtAS(s, as4, st, &b.issue), c19MrtAS(s, as4, st, &b.issue), s.U16(), pa, la, as4, msg)
 		if s.Chance(1, 3) {
 			// the form the daemon writes: the received octets, no message object
